@@ -22,7 +22,7 @@ using sim::Workload;
 using sim::Result;
 using sim::Rng;
 
-enum { C_ENTRY = 0, C_MWMA, C_MWMSA, C_THREADS, C_OVERSAMPLE, C_SIZEMODE, C_SIZEVAL, C_FORCE, C_MINK, C_MINN, C_ELEM, C_SEQKIND };
+enum { C_ENTRY = 0, C_MWMA, C_MWMSA, C_THREADS, C_OVERSAMPLE, C_SIZEMODE, C_SIZEVAL, C_FORCE, C_MINK, C_MINN, C_ELEM, C_SEQKIND, C_PRIOR, C_PRIOR_THREADS, C_PRIOR_SIZEVAL, C_PRIOR_MWMSA };
 enum { EV_ASSIGN = 1 };
 
 struct E;
@@ -102,6 +102,15 @@ void generate(Rng& r, Workload& w, int tier) {
         std::sort(seq.begin(), seq.end());
         w.ops.push_back(seq);
     }
+    // one run in five is a history of two calls of the same entry point from one (fresh) thread: an earlier,
+    // mostly partial and mostly sampling-split merge with its own thread count, then the merge under test --
+    // whatever the first call leaves behind (in the thread, in the library) must not reach the second
+    // (drawn last, so that the rest of the workload is the same as without this dimension)
+    const int64_t prior = r.chance(1, 5) ? 1 : 0;
+    w.cfg.push_back(prior);
+    w.cfg.push_back(r.chance(1, 8) ? 8 : r.range(0, 7));
+    w.cfg.push_back(int64_t(r.below(1000)));
+    w.cfg.push_back(r.chance(3, 4) ? 1 : 0);
 }
 
 template <class Seq, class X> void seq_add(Seq& v, bool first, X&& x) { (void)first; v.emplace_back(std::forward<X>(x)); }
@@ -125,6 +134,7 @@ void run(const Workload& w, Result& res) {
 
     g_e_bad_assign = 0; g_e_bad_source = 0; g_e_bad_destroy = 0;
     const int64_t e_live0 = g_e_live.load();
+    size_t nev0 = 0; sim::rt_events(&nev0);      // events of an earlier call in this run are not this call's
     std::vector<Seq> seqs;
     size_t total = 0;
     for (size_t s = 0; s < w.ops.size() && s < 64; ++s) {
@@ -244,7 +254,7 @@ void run(const Workload& w, Result& res) {
     size_t nev; const sim::Event* ev = sim::rt_events(&nev);
     std::vector<int> writer(out.size(), -1); std::vector<int> writes(out.size(), 0);
     int distinct_writers = 0; std::vector<char> seen(256, 0);
-    for (size_t i = 0; i < nev; ++i) {
+    for (size_t i = nev0; i < nev; ++i) {
         if (ev[i].kind != EV_ASSIGN) continue;
         size_t slot = size_t(ev[i].a);
         writes[slot]++;
@@ -265,11 +275,29 @@ void run(const Workload& w, Result& res) {
     if (sentinels) res.probe("sentinels");
 }
 
+template <class E, bool Hooks, class Seq>
+void run_history(const Workload& w, Result& res) {
+    if (sim::modn(sim::cfg_at(w, C_PRIOR), 2) != 1) { run<E, Hooks, Seq>(w, res); return; }
+    res.probe("history_of_two_calls_on_a_fresh_thread");
+    Workload w1 = w;
+    w1.cfg.resize(C_PRIOR_MWMSA + 1, 0);
+    w1.cfg[C_THREADS] = sim::cfg_at(w, C_PRIOR_THREADS);
+    w1.cfg[C_MWMSA] = sim::cfg_at(w, C_PRIOR_MWMSA);
+    w1.cfg[C_SIZEMODE] = 2;
+    w1.cfg[C_SIZEVAL] = sim::cfg_at(w, C_PRIOR_SIZEVAL);
+    w1.cfg[C_FORCE] = 1;
+    sim::Thread t([&]() {
+        run<E, Hooks, Seq>(w1, res);
+        if (res.ok) run<E, Hooks, Seq>(w, res);
+    });
+    t.join();
+}
+
 void execute(const Workload& w, Result& res) {
     const bool deq = sim::modn(sim::cfg_at(w, C_SEQKIND), 2) == 1;
     if (deq) res.probe("sequences_in_deques");
-    if (sim::modn(sim::cfg_at(w, C_ELEM), 2) == 1) { if (deq) run<P, false, std::deque<P> >(w, res); else run<P, false, std::vector<P> >(w, res); }
-    else { if (deq) run<E, true, std::deque<E> >(w, res); else run<E, true, std::vector<E> >(w, res); }
+    if (sim::modn(sim::cfg_at(w, C_ELEM), 2) == 1) { if (deq) run_history<P, false, std::deque<P> >(w, res); else run_history<P, false, std::vector<P> >(w, res); }
+    else { if (deq) run_history<E, true, std::deque<E> >(w, res); else run_history<E, true, std::vector<E> >(w, res); }
 }
 
 const sim::HarnessDef def = {"C07", true, 60, generate, execute, nullptr};
